@@ -19,7 +19,8 @@
       C19_literal_end_to_end  first clause END TO END through the public entry points (stripping, tokenizer rows of the
                               regenerated tables in all scanning modes, parser, evaluator; any placeholder, any library):
                               DIGITS and DIGITS.DIGITS of any length evaluate in eval_f64 to the correctly rounded quotient, in
-                              eval_number to the Float of the same rounding, in eval_complex to that real number; with at most
+                              eval_number to the Float of the same rounding, in eval_complex to that real number (and to the
+                              imaginary number with that coefficient when an i follows directly); with at most
                               28 digits in all, eval_decimal returns exactly the written decimal, and its negation after a prefix
                               minus (the shape Display prints for a Decimal)
       C19_signed_literal_end_to_end
@@ -105,15 +106,17 @@ Theorem C19_literal_end_to_end :
     (forall (L : libm) p, run_f64 L ip p = Ok (f64_of_decimal (digits_val 0%N ip) 0) /\ run_f64 L (ip ++ ch_dot :: fp) p = Ok v) /\
     (forall (L : libm) p, run_num L (ip ++ ch_dot :: fp) p = Ok (Flt v)) /\
     (forall (C : cpxlib) p, run_cpx C (ip ++ ch_dot :: fp) p = Ok (v, fzero)) /\
+    (forall (C : cpxlib) p, run_cpx C ((ip ++ ch_dot :: fp) ++ [ch_i]) p = Ok (fzero, v)) /\
     ((length ip + length fp <= 28)%nat -> forall (D : declib) p,
        let d := {| d_neg := false; d_coef := digits_val 0%N (ip ++ fp); d_scale := N.of_nat (length fp) |} in
        run_dec D ip p = Ok {| d_neg := false; d_coef := digits_val 0%N ip; d_scale := 0%N |} /\
        run_dec D (ip ++ ch_dot :: fp) p = Ok d /\ run_dec D (45%N :: ip ++ ch_dot :: fp) p = Ok (dec_neg d)).
 Proof.
-  intros ip fp Hne Hi Hf v. split; [|split; [|split]].
+  intros ip fp Hne Hi Hf v. split; [|split; [|split; [|split]]].
   - intros L p. split; [now apply f64_integer_literal_run|now apply f64_point_literal_run].
   - intros L p. now apply number_point_literal_run.
   - intros C p. now apply complex_point_literal_run.
+  - intros C p. now apply complex_imaginary_literal_run.
   - intros Hl D p d. split.
     + apply decimal_integer_literal_run; [assumption|assumption|]. apply Nat.le_trans with (2 := Hl). apply Nat.le_add_r.
     + exact (decimal_point_literal_run D p ip fp Hne Hi Hf Hl).
